@@ -655,7 +655,7 @@ func c10CLISpace() []c10CLICase {
 				out = append(out, c10CLICase{Cmd: ci, OnLog: onLog, Shape: "same-file"})
 			}
 			for _, sz := range []int{1<<20 + 300000, 5 << 20, 33<<20 + 700000} {
-				if !vThorough() && ((sz > 2<<20 && sz < 30<<20) || ci%3 != 0 || (sz > 30<<20 && ci%6 != 0)) { // quick: 1.3 MB for every third command, 34 MB for every sixth
+				if !vThorough() && ((sz > 2<<20 && sz < 30<<20) || ci%3 != 0 || (sz > 30<<20 && ci%12 != 0)) { // quick: 1.3 MB for every third command, 34 MB for every twelfth
 					continue
 				}
 				out = append(out, c10CLICase{Cmd: ci, OnLog: onLog, Shape: "big-file", Size: sz})
